@@ -809,6 +809,7 @@ func ruleSecretWhole(c *Checker) {
 	}
 	rulePatternSource(c, "HSK-SIB")
 	ruleSecretImmutable(c, "HSK-SIB")
+	ruleConnDataFidelity(c, "HSK-SIB")
 	ruleKeySchedule(c, "HSK-ORDER")
 	// the handshake state keeps exactly what it was given
 	if nhs := mboxFunc(c, "mailbox.newHandshakeState"); nhs != nil {
@@ -1442,6 +1443,7 @@ func runC04(c *Checker) {
 	ruleConnDataSetters(c, "PUBLISH", true)
 	ruleVersionConfig(c, "HSK-VER")
 	rulePayloadSource(c, "PUBLISH")
+	ruleConnDataFidelity(c, "PUBLISH")
 	ruleReceivedPayload(c, "PUBLISH")
 	rulePayloadFraming(c, "PUBLISH")
 	pub("SetAuthData", fRP, func(f Fact) bool { return f.Val && isLoadOfField(f.Cond, fInit) },
@@ -2359,4 +2361,73 @@ func rulePayloadFraming(c *Checker, rule string) {
 	}
 	c.decide(okAsm, rule, "writeMsgPattern|v0 frame = length, then payloadToSend whole, at the start of the buffer", wmp.Pos(), "Write(length[:]); Write(payloadToSend); copy(payload, Bytes())",
 		"the version-0 act-2 buffer is not assembled as length prefix + whole payload at offset 0 ("+why+")")
+}
+
+// ruleConnDataFidelity: ConnData is the one place the pairing secret, the auth payload and the
+// two static keys live; everything else asks it. Its constructor stores each argument into the
+// field of the same name, and the four accessors return exactly their field, whole.
+func ruleConnDataFidelity(c *Checker, rule string) {
+	w := c.w
+	ctor := mboxFunc(c, "mailbox.NewConnData")
+	cd := w.Named("mailbox.ConnData")
+	if ctor == nil || cd == nil {
+		c.anchorFail("mailbox.NewConnData / ConnData")
+		return
+	}
+	st, _ := cd.Underlying().(*types.Struct)
+	if st == nil {
+		return
+	}
+	bad := ""
+	n := 0
+	// by position in the (exported, stable) signature - parameter names are free to change
+	roles := []string{"localKey", "remoteKey", "passphraseEntropy", "authData", "onRemoteStatic", "onAuthData"}
+	for pi, p := range ctor.Params {
+		var f *types.Var
+		if pi < len(roles) {
+			for i := 0; i < st.NumFields(); i++ {
+				if st.Field(i).Name() == roles[pi] {
+					f = st.Field(i)
+				}
+			}
+		}
+		if f == nil || !types.Identical(f.Type(), p.Type()) {
+			bad = fmt.Sprintf("no field for parameter %d", pi)
+			continue
+		}
+		stored := false
+		for _, s2 := range w.Stores(f) {
+			if s2.Parent() == ctor && s2.Val == ssa.Value(p) && len(factsAt(s2.Block())) == 0 {
+				stored = true
+			}
+		}
+		if !stored {
+			bad = "field " + f.Name() + " is not set from the parameter of that role"
+		}
+		n++
+	}
+	c.decide(bad == "" && n >= 6, rule, "NewConnData|every argument is stored into the field of its role", ctor.Pos(), fmt.Sprintf("%d parameters", n),
+		"NewConnData does not store each argument into the field of the same name ("+bad+"): the secret, the auth payload or a key the connection runs with is not the configured one")
+	for _, pr := range [][2]string{{"LocalKey", "localKey"}, {"RemoteKey", "remoteKey"}, {"PassphraseEntropy", "passphraseEntropy"}, {"AuthData", "authData"}} {
+		fn := mboxFunc(c, "(*mailbox.ConnData)."+pr[0])
+		f := w.Field("mailbox.ConnData." + pr[1])
+		if fn == nil || f == nil {
+			continue
+		}
+		okk, k := true, 0
+		allInstrs(fn, func(in ssa.Instruction) {
+			ret, ok := in.(*ssa.Return)
+			if !ok || ret.Block().Comment == "recover" {
+				return
+			}
+			k++
+			for _, v := range expandValues(ret.Results[0]) {
+				if !isLoadOfField(v, f) {
+					okk = false
+				}
+			}
+		})
+		c.decide(okk && k >= 1, rule, "ConnData."+pr[0]+"|returns its field, whole", fn.Pos(), "returns "+pr[1],
+			"ConnData."+pr[0]+" does not return the whole "+pr[1]+" field: the handshake runs with a different secret / key / payload than the one stored")
+	}
 }
